@@ -339,6 +339,7 @@ func driver() {
 		cmds[w] = c
 	}
 	infra := []string{}
+	deadline := time.Now().Add(time.Duration(capSec+300) * time.Second)
 	for w, c := range cmds {
 		done := make(chan error, 1)
 		go func() { done <- c.Wait() }()
@@ -348,8 +349,9 @@ func driver() {
 				b, _ := os.ReadFile(filepath.Join(*scratch, fmt.Sprintf("worker.%d.stderr", w)))
 				infra = append(infra, fmt.Sprintf("worker %d: %v: %s", w, err, tail(string(b), 1500)))
 			}
-		case <-time.After(time.Duration(capSec+300) * time.Second):
+		case <-time.After(time.Until(deadline)):
 			c.Process.Kill()
+			<-done
 			infra = append(infra, fmt.Sprintf("worker %d: watchdog", w))
 		}
 	}
